@@ -34,13 +34,15 @@ type Case struct {
 	ShardNum int      `json:"shard_num"`
 	Yield    int      `json:"yield"` // 0 = none; n = Gosched at every n-th lock event
 	Clients  []Client `json:"clients"`
+	// Pre: commands executed one after the other before the clients start (large values to read from)
+	Pre []kit.Cmd `json:"pre,omitempty"`
 }
 
 // key universe: few keys per type so that clients collide on keys (and, with ShardNum 1-2, on stripes/shards)
-var keysByType = map[string][]string{"s": {"s0", "s1"}, "l": {"l0", "l1"}, "t": {"t0"}, "h": {"h0"}, "z": {"z0"}}
+var keysByType = map[string][]string{"s": {"s0", "s1"}, "l": {"l0", "l1"}, "t": {"t0"}, "h": {"h0"}, "z": {"z0"}, "x": {"x0"}}
 
 func genOp(t *rapid.T, client, seq int) kit.Cmd {
-	typ := gen.Pick(t, "typ", "s", "s", "l", "l", "t", "h", "z")
+	typ := gen.Pick(t, "typ", "s", "s", "l", "l", "t", "h", "z", "x")
 	k := rapid.SampledFrom(keysByType[typ]).Draw(t, "key")
 	uniq := fmt.Sprintf("c%d-%d", client, seq) // unique values: a reply delivered to the wrong client shows
 	switch typ {
@@ -74,7 +76,10 @@ func genOp(t *rapid.T, client, seq int) kit.Cmd {
 			return kit.MkCmd("GETRANGE", k, "0", "-1")
 		}
 	case "l":
-		switch gen.Weighted(t, "lop", []int{6, 6, 5, 5, 2, 2, 1}) {
+		switch gen.Weighted(t, "lop", []int{6, 6, 5, 5, 2, 2, 1, 4}) {
+		case 7:
+			// positional reads (several readers at different positions share whatever the list caches)
+			return kit.MkCmd("LINDEX", k, gen.Pick(t, "li", "0", "1", "2", "3", "5", "8", "-1", "-2"))
 		case 0:
 			return kit.MkCmd("LPUSH", k, uniq)
 		case 1:
@@ -106,7 +111,11 @@ func genOp(t *rapid.T, client, seq int) kit.Cmd {
 		}
 	case "h":
 		f := gen.Pick(t, "field", "f", "g")
-		switch gen.Weighted(t, "hop", []int{4, 3, 3, 5, 2, 1, 4}) {
+		switch gen.Weighted(t, "hop", []int{4, 3, 3, 5, 2, 1, 4, 2, 2}) {
+		case 7:
+			return kit.MkCmd("HEXISTS", k, f)
+		case 8:
+			return kit.MkCmd("HSTRLEN", k, f)
 		case 0:
 			return kit.MkCmd("HSET", k, f, gen.Pick(t, "hv", "1", "7"))
 		case 1:
@@ -121,6 +130,17 @@ func genOp(t *rapid.T, client, seq int) kit.Cmd {
 			return kit.MkCmd("HGETALL", k)
 		default:
 			return kit.MkCmd("HSETNX", k, f, uniq) // exactly one concurrent claimant may win
+		}
+	case "x":
+		// explicit IDs that mostly grow with the step (a late client is refused: also a legal outcome);
+		// a small MAXLEN so that every append trims: a reader must never see more entries than the bound
+		switch gen.Weighted(t, "xop", []int{5, 3, 5}) {
+		case 0:
+			return kit.MkCmd("XADD", k, "MAXLEN", gen.Pick(t, "xml", "1", "2", "2", "3"), fmt.Sprintf("%d-%d", seq+1, client+1), "f", uniq)
+		case 1:
+			return kit.MkCmd("XADD", k, fmt.Sprintf("%d-%d", seq+1, client+1), "f", uniq)
+		default:
+			return kit.MkCmd("XRANGE", k, "-", "+")
 		}
 	default:
 		m := gen.Pick(t, "zm", "a", "b", "c", "d")
@@ -138,14 +158,59 @@ func genOp(t *rapid.T, client, seq int) kit.Cmd {
 	}
 }
 
+// genReaderOp: mostly positional and ranked reads of large values (many readers at once share whatever
+// the value caches between calls), a few writers in between.
+func genReaderOp(t *rapid.T, client, seq int) kit.Cmd {
+	uniq := fmt.Sprintf("c%d-%d", client, seq)
+	idx := func() string { return fmt.Sprintf("%d", rapid.IntRange(-45, 45).Draw(t, "idx")) }
+	mem := func() string { return fmt.Sprintf("m%02d", rapid.IntRange(0, 44).Draw(t, "mem")) }
+	switch gen.Weighted(t, "rop", []int{28, 6, 8, 6, 6, 4, 1, 1, 1, 1}) {
+	case 0:
+		return kit.MkCmd("LINDEX", "l0", idx())
+	case 1:
+		return kit.MkCmd("LRANGE", "l0", idx(), idx())
+	case 2:
+		return kit.MkCmd("ZRANK", "z0", mem())
+	case 3:
+		return kit.MkCmd("ZRANGE", "z0", idx(), idx())
+	case 4:
+		return kit.MkCmd("HGET", "h0", mem())
+	case 5:
+		return kit.MkCmd("SISMEMBER", "t0", mem())
+	case 6:
+		return kit.MkCmd("LPUSH", "l0", uniq)
+	case 7:
+		return kit.MkCmd("ZADD", "z0", fmt.Sprintf("%d", 100+rapid.IntRange(0, 50).Draw(t, "zs")), uniq)
+	case 8:
+		return kit.MkCmd("HSET", "h0", mem(), uniq)
+	default:
+		return kit.MkCmd("RPOP", "l0")
+	}
+}
+
 func genCase(t *rapid.T) Case {
 	c := Case{ShardNum: rapid.SampledFrom([]int{1, 2, 16}).Draw(t, "shards"), Yield: rapid.SampledFrom([]int{0, 0, 1, 2, 5}).Draw(t, "yield")}
 	nc := rapid.IntRange(2, 8).Draw(t, "clients")
 	per := rapid.SampledFrom([]int{5, 12, 30, 60}).Draw(t, "per")
+	readers := rapid.IntRange(0, 4).Draw(t, "readers") == 0
+	if readers {
+		l, z, h, st := []string{"RPUSH", "l0"}, []string{"ZADD", "z0"}, []string{"HSET", "h0"}, []string{"SADD", "t0"}
+		for i := 0; i < 40; i++ {
+			m := fmt.Sprintf("m%02d", i)
+			l, z, h, st = append(l, m), append(z, fmt.Sprintf("%d", i), m), append(h, m, m), append(st, m)
+		}
+		c.Pre = []kit.Cmd{kit.MkCmd(l...), kit.MkCmd(z...), kit.MkCmd(h...), kit.MkCmd(st...)}
+		c.Yield = 0
+		nc, per = 8, rapid.SampledFrom([]int{60, 300}).Draw(t, "rper")
+	}
 	for i := 0; i < nc; i++ {
 		var cl Client
 		for j := 0; j < per; j++ {
-			cl.Ops = append(cl.Ops, genOp(t, i, j))
+			if readers {
+				cl.Ops = append(cl.Ops, genReaderOp(t, i, j))
+			} else {
+				cl.Ops = append(cl.Ops, genOp(t, i, j))
+			}
 		}
 		c.Clients = append(c.Clients, cl)
 	}
@@ -172,6 +237,13 @@ func runHistory(c Case, do doer) (hist []porcupine.Operation, fail string, overl
 	start := make(chan struct{})
 	t0 := time.Now()
 	failCh := make(chan string, len(c.Clients))
+	for i, cmd := range c.Pre {
+		v, bad := do(0, cmd)
+		if bad != "" {
+			return nil, fmt.Sprintf("prologue %.80s: %s", cmd.String(), bad), false
+		}
+		hist = append(hist, porcupine.Operation{ClientId: len(c.Clients) + 1, Input: lin.In{Cmd: cmd, Part: string(cmd[1])}, Call: int64(-2 * (len(c.Pre) - i)), Output: lin.Out{Val: v}, Return: int64(-2*(len(c.Pre)-i) + 1)})
+	}
 	for ci, cl := range c.Clients {
 		wg.Add(1)
 		go func(ci int, cl Client) {
@@ -222,7 +294,7 @@ func runHistory(c Case, do doer) (hist []porcupine.Operation, fail string, overl
 func finalReads(do doer, client int) ([]porcupine.Operation, string) {
 	var out []porcupine.Operation
 	base := time.Now().UnixNano()
-	reads := map[string][]string{"s": {"GET"}, "l": {"LRANGE", "0", "-1"}, "t": {"SMEMBERS"}, "h": {"HGETALL"}, "z": {"ZRANGE", "0", "-1", "WITHSCORES"}}
+	reads := map[string][]string{"s": {"GET"}, "l": {"LRANGE", "0", "-1"}, "t": {"SMEMBERS"}, "h": {"HGETALL"}, "z": {"ZRANGE", "0", "-1", "WITHSCORES"}, "x": {"XRANGE", "-", "+"}}
 	i := int64(0)
 	for typ, ks := range keysByType {
 		for _, k := range ks {
@@ -277,6 +349,9 @@ func execInproc(c Case) kit.Outcome {
 		return r.Val, ""
 	}
 	o := kit.Outcome{Labels: []string{fmt.Sprintf("shardnum:%d", c.ShardNum), fmt.Sprintf("yield:%d", c.Yield)}}
+	if len(c.Pre) > 0 {
+		o.Labels = append(o.Labels, "profile:many-readers-of-large-values")
+	}
 	hist, fail, overlapped := runHistory(c, do)
 	if fail != "" {
 		o.Fail = fail
